@@ -176,7 +176,7 @@ func (v *Vue) evalObjectBinding(ctx VueContext, attrName, expr string) string {
 	}
 
 	content := expr[1 : len(expr)-1] // Remove { }
-	pairs := v.parseObjectPairs(ctx, content)
+	pairs := v.parseObjectPairs(ctx, content, attrName == "class")
 
 	switch attrName {
 	case "class":
@@ -197,7 +197,9 @@ func (v *Vue) evalObjectBinding(ctx VueContext, attrName, expr string) string {
 
 // parseObjectPairs parses key:value pairs from an object literal.
 // Returns a slice of resolved values in order.
-func (v *Vue) parseObjectPairs(ctx VueContext, content string) []string {
+// With quoteStrings, string values are written in quotes, so that a reader of the pair (the class
+// builder) does not mistake the string "0" or "false" for the number or the boolean.
+func (v *Vue) parseObjectPairs(ctx VueContext, content string, quoteStrings bool) []string {
 	var pairs []string
 
 	// Split by comma, but respect quoted strings
@@ -232,6 +234,10 @@ func (v *Vue) parseObjectPairs(ctx VueContext, content string) []string {
 		}
 
 		// Store both key and resolved value
+		if str, isString := val.(string); isString && quoteStrings {
+			pairs = append(pairs, fmt.Sprintf("%s:%q", key, str))
+			continue
+		}
 		pairs = append(pairs, fmt.Sprintf("%s:%v", key, val))
 	}
 
